@@ -51,6 +51,10 @@ type Property interface {
 	QuickRuns() int // fixed number of runs of the quick tier
 }
 
+// CurrentSeed is the batch seed (VERIF_SEED), set by the worker before Gen is called; grid-style
+// generators use it to derive choices shared by several run indices.
+var CurrentSeed uint64
+
 var registry = map[string]Property{}
 
 func register(p Property) { registry[p.ID()] = p }
@@ -244,8 +248,8 @@ func specFor(w *sim.World, ep *sim.Endpoint) (*oracle.FlowSpec, *sim.CallState) 
 	fs.Proto = proto
 	fs.V6 = ep.Addr.Is6() && !ep.Addr.Is4In6()
 	port := cs.ResolvedPort
-	if !direct && port == 0 {
-		port = 33434
+	if !direct {
+		_, port = expectedTarget(c, cs.ResolvedPort)
 	}
 	if proto == "icmp" {
 		port = 0
